@@ -352,9 +352,10 @@ def tuple_items(v):
     assert isinstance(v.ty, TTuple)
     out = []
     k = 0
-    for it in v.ty.items:
+    pys = v.py if isinstance(v.py, list) and len(v.py) == len(v.ty.items) else [None] * len(v.ty.items)
+    for it, p in zip(v.ty.items, pys):
         n = len(it.comps())
-        out.append(SV(it, v.t[k:k + n]))
+        out.append(SV(it, v.t[k:k + n], py=p))
         k += n
     return out
 
